@@ -225,3 +225,11 @@ def h1(ctx: Ctx) -> None:
     from .c10 import r3 as record_fields_rule
 
     record_fields_rule(ctx)
+
+
+
+@rule("C19.H2", "whether an order carries a price to round is decided by value (an order equal to a limit order is rounded like one)", "T13 lint over Market", floor=30)
+def h2(ctx: Ctx) -> None:
+    from .events import check_identity_comparisons
+
+    check_identity_comparisons(ctx, ["Market"], floor=30)
